@@ -190,6 +190,19 @@ fn explore(ctx: &mut Ctx) {
     ctx.exhaustive_part(&format!(
         "all strings of 0..={max_chars} chars over {{a,é,漢,😀}} + 162 strings of boundary scalars, x index set {{0..=len+2, usize::MAX neighbourhood, isize::MAX neighbourhood}} x all pairs"
     ));
+    // long strings (beyond the exhaustive bound): 17..=70 bytes, every index and every pair
+    for (k, n) in [(1usize, 9usize), (2, 14), (3, 23), (5, 31)] {
+        let pool = ['a', 'é', '漢', '😀', '\u{7ff}', '\u{800}', '\u{ffff}', 'z'];
+        let s: String = (0..n).map(|i| pool[(i * k + i / 4) % pool.len()]).collect();
+        let idx: Vec<usize> = (0..=s.len() + 2).chain([usize::MAX]).collect();
+        for &a in &idx {
+            eval(ctx, Case { s: s.clone(), a, b: None });
+            for &b in &idx {
+                eval(ctx, Case { s: s.clone(), a, b: Some(b) });
+            }
+        }
+    }
+    ctx.exhaustive_part("4 long strings (9..=31 chars, 17..=70 bytes, all UTF-8 widths) x every index 0..=len+2, usize::MAX x all pairs");
     // random: longer strings over a wider alphabet
     let n = ctx.by_tier(100_000, 2_000_000);
     let ch = prop_oneof![
